@@ -290,6 +290,21 @@ func (ex *Exec) intrinsic(fr *Frame, ins ssa.Instruction, fn *ssa.Function, args
 			return nil, true
 		case "(*Once).Do":
 			ex.note("sync.Once.Do: the function runs at most once; its effects are not followed here")
+			if _, declared := ex.prog.GhostFields["$onced"]; declared && len(args) >= 1 {
+				// ghost: Do has returned on this Once (whatever it runs happened before every later statement)
+				func() {
+					defer func() {
+						if r := recover(); r != nil {
+							if _, isU := r.(unsupported); !isU {
+								panic(r)
+							}
+						}
+					}()
+					ref := ex.refOf(args[0])
+					reg := ex.st.region(ex, "X|$onced", SArr(SInt, SBool))
+					ex.st.heap["X|$onced"] = ex.ts.Store(reg, ref, ex.ts.True())
+				}()
+			}
 			return nil, true
 		}
 	case "sync/atomic":
